@@ -75,7 +75,7 @@ theorem stepRel_RTrig (now : Int) : StepRel now (fun _ => True) (fun _ => True) 
     intro c d _ _
     unfold addTrigger
     split <;> exact rtrig_of_eq rfl rfl rfl rfl rfl rfl
-  disarm := by intro d _ _; exact rtrig_of_eq rfl rfl rfl rfl rfl rfl
+  disarm := by intro d _ _ _ _; exact rtrig_of_eq rfl rfl rfl rfl rfl rfl
 
 /-! ### DowntimeEnd -/
 
@@ -127,7 +127,7 @@ theorem stepRel_REnd (now : Int) : StepRel now (fun _ => True) (fun _ => True) R
     unfold addTrigger
     split <;> simp [PEnd, he]
   disarm := by
-    intro d _ hr
+    intro d _ hr _ _
     refine ⟨fun h => by simp [hr] at h, fun _ he => ?_⟩
     simp [PEnd, he]
 
@@ -214,7 +214,7 @@ theorem stepRel_RStart (now : Int) :
     split
     · exact h
     · exact h
-  disarm := by intro d _ _ h; exact h
+  disarm := by intro d _ _ _ _ h; exact h
 
 /-! ### The trigger cascade -/
 
